@@ -39,7 +39,7 @@ TABLE = [
       'ops': [['apply', ['id'], 1, {}, True], ['apply', ['id'], 2, {}, True],
               ['close']]}),
     ('D7-death-reaped-before-ack', 'C04', 'sim', 'open', None,
-     'C04/unresolved/apply/dead-owner',
+     'C04/unresolved/apply/ack-after-reap',
      'a worker death reaped before the victim\'s pending ACK is consumed is '
      'never attributed to the job (orphan scan runs only inside "if cleaned:", '
      'pool.py _join_exited_workers): the caller waits forever',
